@@ -23,6 +23,13 @@ def register(reg):
                            "distinct(inarray, fold_ar, count_ar, delays)"],
                  modifies=["fold_ar", "count_ar"],
                  after_assign={
+                     # the documented assignment of a sample to its cell (property clause "by the documented phase
+                     # formula", "sub-integration by time order"): stated on the kernel's own intermediate values
+                     "tj": [("time of the sample in the whole observation", "tj == (isamp + index) * tsamp")],
+                     "phase": [("documented phase formula", "phase == nbins * ((isamp + index) * tsamp) * (1 + accel * "
+                                "((isamp + index) * tsamp - total_nsamps * tsamp) / (2 * 299792458.0)) / period + 0.5")],
+                     "subint": [("sub-integration by time order", "subint * total_nsamps <= (isamp + index) * nints and "
+                                 "(isamp + index) * nints < (subint + 1) * total_nsamps")],
                      "sub_band": [("sub-band in range", "0 <= sub_band and sub_band <= nsubs - 1")],
                      "pos2": [("cell inside the cube", "0 <= pos2 and pos2 < nbins * nints * nsubs and "
                                                        "pos2 == subint * nbins * nsubs + sub_band * nbins + phasebin")]})
